@@ -140,6 +140,7 @@ func (m *C11) verify(w *world.World, _ interface{}, h uint64, boundary bool, whe
 	}
 	sort.Slice(ids, func(i, j int) bool { return ids[i] < ids[j] })
 	ended := map[string]bool{}
+	releasedSp := map[string]bool{}
 	for _, id := range ids {
 		en := m.entries[id]
 		sh, present := st.Shards[id]
@@ -167,10 +168,27 @@ func (m *C11) verify(w *world.World, _ interface{}, h uint64, boundary bool, whe
 			}
 			delete(m.entries, id)
 			ended[en.dataId] = true
+			releasedSp[en.sp] = true
 		}
 	}
 	if !boundary {
 		return
+	}
+	// "the provider's capacity and collateral are returned": a provider whose last shard was just released
+	// accounts no used capacity and no shard collateral any more
+	for sp := range releasedSp {
+		holds := false
+		for _, sh := range st.Shards {
+			if sh.Sp == sp {
+				holds = true
+			}
+		}
+		if pl, ok := st.Pledges[sp]; ok && !holds {
+			m.checks++
+			if pl.UsedStorage != 0 || pl.TotalShardPledged.Amount.IsPositive() {
+				w.Violate("C11", "capacity-or-collateral-kept-after-last-release", fmt.Sprintf("height %d: provider %s holds no shard any more but still accounts %d used bytes and %s shard collateral", h, shortAddr(sp), pl.UsedStorage, pl.TotalShardPledged), nil)
+			}
+		}
 	}
 	// when a model's last shard has gone, the orders and the model disappear too
 	for d := range ended {
